@@ -21,7 +21,7 @@ def cellOf (j : Json) : Except String Cell := do
   | .ok v => pure (Cell.qual (← asNatList v))
   | .error _ => throw "bad cell"
 
-def isVcf (fmt : String) : Bool := fmt == "vcf" || fmt == "vcfs"
+def isVcf (fmt : String) : Bool := fmt == "vcf" || fmt == "vcfs" || fmt == "vcf2"
 
 def prep (fmt : String) (rows : List Row) : List Row :=
   if isVcf fmt then rows.map (shiftPos 1)
@@ -37,6 +37,7 @@ def entriesOf (rows : List Row) : List (C02.Bytes × C02.Bytes) :=
 def dumpModel (fmt : String) (rows : List Row) : C02.Bytes :=
   if fmt == "fasta" then (if rows = [] then [] else dumpFasta Gen.C03.fastaLineWidth (entriesOf rows))
   else if fmt == "fastq" then dumpFastq Gen.C03.fastqMarker Gen.C03.fastqLineOffsets rows
+  else if fmt == "fasta2" then joinFields Gen.C03.fastaMarker [1, 0] (rows.map (·.map cellText))
   else
     let rs := prep fmt rows
     dumpDelimited ((rs.head?.map List.length).getD 0) rs
@@ -45,6 +46,7 @@ def dumpModel (fmt : String) (rows : List Row) : C02.Bytes :=
 def dumpCanon (fmt : String) (rows : List Row) : C02.Bytes :=
   if fmt == "fasta" then fastaSpec 80 (entriesOf rows)
   else if fmt == "fastq" then fastqSpec rows
+  else if fmt == "fasta2" then (entriesOf rows).flatMap (fun e => 62 :: e.1 ++ [10] ++ e.2 ++ [10])
   else dumpSpec 9 ((prep fmt rows).map (·.map cellText))
 
 def handle (op : String) (j : Json) : Except String Json := do
@@ -67,13 +69,14 @@ def handle (op : String) (j : Json) : Except String Json := do
     let sess : List Sess := (sessRaw.foldl (fun (acc : List Sess × List (List Row)) msk =>
       (acc.1 ++ [⟨if msk.1 == "w" then Mode.write else Mode.append, msk.2.1, acc.2.take msk.2.2⟩], acc.2.drop msk.2.2))
       ([], pieces)).1
-    -- csvh: a delimited buffer with a column-name header line ("name\tsize\n")
+    -- delimited buffers with a column-name header line hand their header text over ("hdr")
+    let hdrJ := (j.getObjValAs? String "hdr").toOption
     let hdr : C02.Bytes := if isVcf fmt then Gen.C03.vcfDefaultHeader
-      else if fmt == "csvh" then toBytes "name\tsize\n" else []
+      else match hdrJ with | some h => toBytes h | none => []
     let dump := dumpModel fmt
     let bytes := runAll hdr dump [] sess
     let m := Json.mkObj [("bytes", txt bytes)]
-    let nh : Nat := if (isVcf fmt || fmt == "csvh") && sess.flatMap Sess.calls != [] then 1 else 0
+    let nh : Nat := if (isVcf fmt || hdrJ.isSome) && sess.flatMap Sess.calls != [] then 1 else 0
     let s := Json.mkObj [("body", txt (dumpCanon fmt rows)), ("headers", nat nh)]
     pure (reply m (some s))
   | _ => throw s!"C03: unknown op {op}"
